@@ -15,6 +15,7 @@ RULE = ("single operations: every gate of the alphabet x every register width x 
         "sequence alphabet, through SymbolicSimulator and the base-class simulator with everything / nothing native. "
         "non-trivial = reference unitary differs from identity and (single ops) index tuple is not (0..k-1) on k qubits, "
         "(sequences) ops do not all commute trivially i.e. length >= 2; distinct = canonical case json")
+RULE += ' Round 5: registers of 7-10 qubits (asymmetric 2-/3-qubit gates on far-apart, descending and adjacent tuples through apply / lifted_matrix / to_unitary / the bundled simulator); one simulator object answering every history of 2 calls over 6 circuits x 3 initial states.'
 ASSUMPTIONS = ["numpy dense arithmetic is correct", "the gate's own numeric matrix (gate.matrix) is taken as given (C02/C07 decide it)",
                "qubit 0 = most significant bit; first listed qubit = most significant bit of the gate's own index"]
 BOUNDS = {"quick": {"single_ops_max_width": 4, "sequence_len": 2, "sim_len": 3, "sim_qubits": [2, 3]},
